@@ -72,7 +72,7 @@ EntryPoints(p) == {EpOf(k) : k \in EntryPointKinds(p)}
 ElabMethod(m, code) ==
     [name |-> Str(m.name), name_c |-> m.name, kind |-> m.kind, args |-> m.args, outcome |-> m.outcome,
      code |-> code, variant |-> Str(Variant(m.name)), wire |-> Str(Wire(m.name)),
-     near |-> Str(Near(m.name)), shape_name |-> IsShapeName(m.name), resp |-> m.resp, explicit |-> m.explicit]
+     near |-> Str(Near(m.name)), shape_name |-> IsShapeName(m.name), resp |-> m.resp, explicit |-> m.explicit, sig |-> m.sig, ret |-> m.ret]
 ElabPart(part, base) ==
     [id |-> part.id,
      methods |-> [j \in 1..Len(part.methods) |-> ElabMethod(part.methods[j], base + j)],
